@@ -80,7 +80,7 @@ def _value_to_blackbird(v, tdm=False):
         v = v.item()
 
     if isinstance(v, complex):
-        return "{}{}{}j".format(v.real, "+-"[int(v.imag < 0)], abs(v.imag))
+        return "{}{}{}j".format(v.real, "+-"[int(np.signbit(v.imag))], abs(v.imag))
 
     # booleans, ints, floats
     return "{}".format(v)
@@ -141,7 +141,7 @@ def numpy_to_blackbird(A, var_name):
         script = ["complex array {}[{}, {}] =".format(var_name, *A.shape)]
         for row in A:
             row_str = "    " + ", ".join(
-                ["{0}{1}{2}j".format(n.real, "+-"[int(n.imag < 0)], abs(n.imag)) for n in row]
+                ["{0}{1}{2}j".format(n.real, "+-"[int(np.signbit(n.imag))], abs(n.imag)) for n in row]
             )
             script.append(row_str)
 
